@@ -28,6 +28,7 @@ import (
 func init() {
 	families["listener"] = genListener
 	executors["listener"] = execListener
+	executors["listenerselftest"] = execListenerSelfTest
 }
 
 func canonFile(f filedef.File) string {
@@ -105,7 +106,9 @@ func listenerScript(n int, steps []lstep, mu *sync.Mutex, out *[]string, progres
 		}
 	}
 	var l *filedef.Listener
-	if n < 0 {
+	if n == -2 {
+		l = new(filedef.Listener) // detector self-test only (listenerselftest): never built by NewListener, its pool channel is nil
+	} else if n < 0 {
 		l = filedef.NewListener()
 	} else {
 		l = filedef.NewListener(filedef.WithChannelBuffer(uint(n)))
@@ -134,7 +137,26 @@ func listenerScript(n int, steps []lstep, mu *sync.Mutex, out *[]string, progres
 	close(donec)
 }
 
-func execListener(args []string) string {
+func execListener(args []string) string { return execListenerImpl(args, false) }
+
+// listenerselftest: the deadlock detector on a listener that certainly deadlocks — the zero Listener (not made by
+// NewListener: `poolc` is nil, so OnMesg blocks on it forever while the worker waits for a message), and on one that
+// certainly does not. Run on every check (checklib/props/C14.py), so that "no deadlock reported" keeps meaning something
+// now that no buffer size deadlocks any more.
+func execListenerSelfTest(args []string) string {
+	d := mdesc{num: int(mesgnum.FileId), f1: tsF{kind: '-'}, f253: tsF{kind: '-'}, f4: tsF{kind: '-'}, tag: 1, ft: 4}
+	for _, g := range []string{"g1", "g2", "g16"} {
+		if a := execListenerImpl([]string{g, "s1", "nz", "m" + d.String(), "F"}, true); a != "deadlock" {
+			return "error zero Listener under " + g + ": expected deadlock, detector answered " + a
+		}
+		if a := execListenerImpl([]string{g, "s1", "n1", "m" + d.String(), "F"}, true); !strings.HasSuffix(a, " end") {
+			return "error NewListener(WithChannelBuffer(1)) under " + g + ": " + a
+		}
+	}
+	return "ok deadlock-detected"
+}
+
+func execListenerImpl(args []string, selftest bool) string {
 	if len(args) < 3 || !strings.HasPrefix(args[0], "g") || !strings.HasPrefix(args[1], "s") || !strings.HasPrefix(args[2], "n") {
 		return "bad-op"
 	}
@@ -143,7 +165,9 @@ func execListener(args []string) string {
 		return "bad-op"
 	}
 	n := -1
-	if args[2] != "nd" {
+	if selftest && args[2] == "nz" {
+		n = -2
+	} else if args[2] != "nd" {
 		if n, err = strconv.Atoi(args[2][1:]); err != nil || n < 0 || n > 1<<16 {
 			return "bad-op"
 		}
@@ -223,10 +247,11 @@ func genListener(emit func(string), tier string, rng *Rng) {
 	if tier == "thorough" {
 		nOps = 20000
 	}
+	// buffer size 0 (unbuffered message channel, one pooled slice) is an ordinary size since the repair of KF-C14-1
 	bufs := []int{0, 1, 2, 3, 4, 5, 6, 7, 8, 64, 128, -1}
 	pickBuf := func() int {
 		if rng.Intn(3) == 0 {
-			return []int{1, 1, 2, 3}[rng.Intn(4)]
+			return []int{0, 1, 1, 2, 3}[rng.Intn(5)]
 		}
 		return bufs[rng.Intn(len(bufs))]
 	}
@@ -236,18 +261,18 @@ func genListener(emit func(string), tier string, rng *Rng) {
 		}
 		return pre + strconv.Itoa(b)
 	}
-	zeroOps := 0
 	for i := 0; i < nOps; i++ {
 		n := pickBuf()
-		if n == 0 {
-			zeroOps++
-			if zeroOps > 40 && tier != "thorough" {
-				n = 1
-			}
-		}
+		through0 := rng.Intn(8) == 0 // a Reset chain that passes through size 0: n → 0 → k → 0 …
+		bufNow := n                  // buffer size in effect (for the distribution counters)
+		zeroSeq, backFromZero := false, false
 		toks := []string{"listener", fmt.Sprintf("g%d", []int{1, 2, 16}[rng.Intn(3)]), fmt.Sprintf("s%d", rng.Intn(1<<30)), bufTok(n, "n")}
 		count("buf:" + bufTok(n, ""))
 		nseq := 1 + rng.Intn(4)
+		if through0 {
+			nseq = 3 + rng.Intn(3)
+			count("reset-chain-through-0")
+		}
 		tag := uint32(1)
 		var cur *ftInfo // file type in effect in the listener (sequentially)
 		active := true
@@ -266,6 +291,9 @@ func genListener(emit func(string), tier string, rng *Rng) {
 			ds = genMesgList(in, rng, k, tag)
 			tag += uint32(k) + 1
 			// file_id handling: genMesgList starts most lists with a file_id of this type; sometimes an unknown type or none
+			if bufNow == 0 && len(ds) > 0 {
+				zeroSeq = true
+			}
 			for j := range ds {
 				d := ds[j]
 				if !active { // OnMesg after Close/File: reset() → no file until a file_id arrives
@@ -302,7 +330,14 @@ func genListener(emit func(string), tier string, rng *Rng) {
 				}
 				toks = append(toks, "m"+d.String())
 			}
-			switch x := rng.Intn(12); {
+			x := rng.Intn(12)
+			if through0 && rng.Intn(4) != 0 {
+				x = 9 // Reset
+				if rng.Intn(2) == 0 {
+					toks = append(toks, "F") // … of an inactive listener, after its file has been taken
+				}
+			}
+			switch {
 			case x < 7:
 				toks = append(toks, "F")
 				active = false
@@ -314,9 +349,22 @@ func genListener(emit func(string), tier string, rng *Rng) {
 				active = false
 			case x < 11:
 				b := pickBuf()
-				if b == 0 && rng.Intn(3) != 0 {
-					b = 2
+				if through0 {
+					if bufNow != 0 {
+						b = 0
+					} else if b == 0 {
+						b = 1 + rng.Intn(3)
+					}
 				}
+				if bufNow == 0 && b != 0 && zeroSeq {
+					backFromZero = true
+				}
+				if b < 0 {
+					bufNow = 128
+				} else {
+					bufNow = b
+				}
+				count("reset:" + bufTok(b, ""))
 				toks = append(toks, bufTok(b, "R"))
 				cur = nil
 				active = true
@@ -326,35 +374,12 @@ func genListener(emit func(string), tier string, rng *Rng) {
 		if rng.Intn(4) != 0 {
 			toks = append(toks, "F")
 		}
+		if zeroSeq {
+			count("mesgs-at-buffer-0")
+		}
+		if backFromZero {
+			count("reset-0-then-larger")
+		}
 		emit(strings.Join(toks, " "))
 	}
 }
-
-// listenerprobe <path>: writes Generated/ListenerFacts.lean — does the real listener deadlock with channel buffer size 0
-// (initially, and after Reset(WithChannelBuffer(0)))? The model's treatment of size 0 follows this fact, so that a repair
-// of KF-C14-1 in /repo (any repair that makes size 0 work like the smallest working size) needs no change of the model.
-func execListenerProbe(args []string) string {
-	if len(args) != 1 {
-		return "bad-op"
-	}
-	d := mdesc{num: int(mesgnum.FileId), f1: tsF{kind: '-'}, f253: tsF{kind: '-'}, f4: tsF{kind: '-'}, tag: 1, ft: 4}
-	a1 := execListener([]string{"g2", "s1", "n0", "m" + d.String(), "F"})
-	a2 := execListener([]string{"g2", "s1", "n1", "R0", "m" + d.String(), "F"})
-	dead1, dead2 := strings.HasSuffix(a1, "deadlock"), strings.HasSuffix(a2, "deadlock")
-	if dead1 != dead2 {
-		return "error size 0 behaves differently initially and after Reset: " + a1 + " / " + a2
-	}
-	s := "/-! GENERATED on every run by harness op `listenerprobe` (harness/fam_listener.go). Do not edit. -/\n" +
-		"namespace Fit.Listener.Generated\n" +
-		"/-- does `filedef.NewListener(filedef.WithChannelBuffer(0))` block forever at the first OnMesg on the current tree? -/\n" +
-		fmt.Sprintf("def buffer0Deadlocks : Bool := %v\n", dead1) +
-		"end Fit.Listener.Generated\n"
-	if old, err := os.ReadFile(args[0]); err != nil || string(old) != s {
-		if err := os.WriteFile(args[0], []byte(s), 0o644); err != nil {
-			return "error write"
-		}
-	}
-	return fmt.Sprintf("ok buffer0Deadlocks=%v", dead1)
-}
-
-func init() { executors["listenerprobe"] = execListenerProbe }
